@@ -56,6 +56,20 @@ def cells(tier):
         ut = "cmp10" if m[2] == "optimal_comparison" else "plur"
         fixed = {"d": 100} if m[2] == "shrink_trunc" else {}
         out.append(dict(method=list(m), n=3, N=N, ut=ut, ro=True, k=2, fixed=fixed, xk="int01"))
+    # optional arguments omitted (the code's own defaults, e.g. the initial alternative of shrink_trunc) must be predictable too
+    # (fixed_bet passed explicitly has no default for lam: AttributeError, outside the property)
+    for m in nnm.METHODS:
+        opt = {"shrink_trunc": ["eta", "c", "d", "f", "minsd"], "agrapa": ["lam", "c_grapa_0", "c_grapa_max", "c_grapa_grow"],
+               "fixed_alternative_mean": ["eta"], "optimal_comparison": ["rate_error_2"]}.get(m[2])
+        if not opt or m[0] == "wald_sprt":
+            continue
+        for N in ("inf", 6):
+            if N not in nnm.n_grid(m, 3) and N != 6:
+                continue
+            ut = "cmp10" if m[2] == "optimal_comparison" else "plur"
+            out.append(dict(method=list(m), n=3, N=N, ut=ut, ro=True, k=2, fixed={}, xk="real", omit=opt))
+            if m[2] == "shrink_trunc":
+                out.append(dict(method=list(m), n=3, N=N, ut=ut, ro=True, k=2, fixed={"d": 1}, xk="real", omit=["eta"]))
     return out
 
 
